@@ -1350,6 +1350,17 @@ func toFloat64(v interface{}) (float64, error) {
 		return 0, nil
 	}
 
+	// the other integer and float widths, and named number types
+	rv := reflect.ValueOf(v)
+	switch rv.Kind() {
+	case reflect.Int, reflect.Int8, reflect.Int16, reflect.Int32, reflect.Int64:
+		return float64(rv.Int()), nil
+	case reflect.Uint, reflect.Uint8, reflect.Uint16, reflect.Uint32, reflect.Uint64, reflect.Uintptr:
+		return float64(rv.Uint()), nil
+	case reflect.Float32, reflect.Float64:
+		return rv.Float(), nil
+	}
+
 	return 0, fmt.Errorf("cannot convert %T to float64", v)
 }
 
@@ -2049,6 +2060,18 @@ func (e *CoreExtension) filterNumberFormat(value interface{}, args ...interface{
 }
 
 func (e *CoreExtension) filterAbs(value interface{}, args ...interface{}) (interface{}, error) {
+	// integers stay integers: a float64 cannot hold every int64
+	switch rv := reflect.ValueOf(value); rv.Kind() {
+	case reflect.Int, reflect.Int8, reflect.Int16, reflect.Int32, reflect.Int64:
+		if i := rv.Int(); i >= 0 {
+			return i, nil
+		} else if i != math.MinInt64 {
+			return -i, nil
+		}
+	case reflect.Uint, reflect.Uint8, reflect.Uint16, reflect.Uint32, reflect.Uint64, reflect.Uintptr:
+		return rv.Uint(), nil
+	}
+
 	num, err := toFloat64(value)
 	if err != nil {
 		return value, nil
